@@ -335,19 +335,30 @@ def run_property(spec: PropertySpec, tier: str, seed: int) -> int:
 
     # 1. translated slice + build of the cone
     gen_ok, gen_log = (True, '')
+    slices_skipped: dict[str, str] = {}
+    modules = list(spec.modules)
     if spec.gen:
         gen_ok, gen_log = spec.gen()
+        if not gen_ok:
+            from . import translate
+            failed = dict(getattr(translate.generate, 'failed', {}))
+            if failed and all(nm in translate.SLICE_MODULES for nm in failed):
+                # only slices with obligation modules of their own could not be translated: leave those modules out of this run
+                drop = {m for nm in failed for m in translate.SLICE_MODULES[nm]}
+                modules = [m for m in modules if m not in drop]
+                slices_skipped = failed
+                gen_ok = True
     notes_changed: list[str] = []
     if spec.gen and getattr(spec.gen, 'slices', None):
         from . import formulas
         notes_changed = formulas.changed_notes(spec.gen.slices)
-    build_ok, build_log = lake_build(spec.modules + ['driver'])
+    build_ok, build_log = lake_build(modules + ['driver'])
     # 2. audit
-    forb = grep_forbidden(spec.modules)
-    audit = audit_modules(spec.modules) if build_ok else {'ok': False, 'theorems': {}, 'bad': {}, 'log': 'not built'}
+    forb = grep_forbidden(modules)
+    audit = audit_modules(modules) if build_ok else {'ok': False, 'theorems': {}, 'bad': {}, 'log': 'not built'}
     checker_ok, checker_log = (True, '')
     if tier == 'thorough' and build_ok:
-        checker_ok, checker_log = leanchecker(spec.modules)
+        checker_ok, checker_log = leanchecker(modules)
     proof_ok = gen_ok and build_ok and audit['ok'] and not forb and checker_ok
     obligations = max(len(audit['theorems']), 1)
     discharged = len([t for t in audit['theorems'] if t not in audit['bad']]) if proof_ok else 0
@@ -399,7 +410,7 @@ def run_property(spec: PropertySpec, tier: str, seed: int) -> int:
     corr_only = [f for f in outcome.failures if f.kind == 'correspondence']
     prop_fail = [f for f in outcome.failures if f.kind == 'property']
     searched = False
-    if (not proof_ok or corr_only or notes_changed) and not [f for f in prop_fail if not is_known(f)] and crashed is None:
+    if (not proof_ok or corr_only or notes_changed or slices_skipped) and not [f for f in prop_fail if not is_known(f)] and crashed is None:
         searched = True
         try:
             more = spec.run(tier, seed + 7919, 10)
@@ -426,6 +437,10 @@ def run_property(spec: PropertySpec, tier: str, seed: int) -> int:
         if k['id'] in known_hit:
             lines.append(f'KNOWN-FINDING: property={pid} {k["what"]} [{k["id"]}, {known_hit[k["id"]]} case(s)]')
 
+    for nm, why in slices_skipped.items():
+        lines.append(f'SLICE-NOTE property={pid} the source behind the translated slice {nm} is written in a way the translator does not understand '
+                     f'({why[:200]}); its obligations were NOT checked on this run (the hand-written model, its theorems and the correspondence '
+                     f'check were); the failing-input search ran with the enlarged budget')
     if notes_changed:
         lines.append(f'STRUCTURE-NOTE property={pid} the array code around a translated slice is written differently than when the check was built '
                      f'({", ".join(notes_changed)}); the failing-input search ran with the enlarged budget')
@@ -464,9 +479,9 @@ def run_property(spec: PropertySpec, tier: str, seed: int) -> int:
     cov = {
         'obligations': obligations,
         'discharged': discharged if proof_ok else min(discharged, obligations - 1),
-        'checker_cmd': 'cd lean && lake build ' + ' '.join(spec.modules)
+        'checker_cmd': 'cd lean && lake build ' + ' '.join(modules)
         + ' && lake env lean <#audit_module of each>'
-        + (' && lake env leanchecker ' + ' '.join(spec.modules) if tier == 'thorough' else ''),
+        + (' && lake env leanchecker ' + ' '.join(modules) if tier == 'thorough' else ''),
         'trusted_base': TRUSTED_BASE_COMMON + spec.trusted,
         'theorems': sorted(audit['theorems']),
         'evaluations': outcome.evaluations,
@@ -479,6 +494,7 @@ def run_property(spec: PropertySpec, tier: str, seed: int) -> int:
         'known_findings_hit': known_hit,
         'broken_obligation': broken_obligation,
         'structure_notes_changed': notes_changed,
+        'slices_untranslatable': slices_skipped,
     }
     cov.update(outcome.extra)
     level = 'proof'
